@@ -14,7 +14,7 @@ from vf.seq import outcome
 PROP = "C17"
 LEVEL = "exploration"
 RULE = ("score vectors over 0..3: all vectors up to length 5 (quick) / 6 (thorough), seeded vectors up to length 9 / "
-        "12; keys: sum, length, max, constant, lexicographic tuple, sum-of-squares. Oracle for sorted_combinations: "
+        "12; keys: sum, length, max, constant, lexicographic tuple, sum-of-squares and position-dependent ones (the tuple itself, first element, sum of the first two). Oracle for sorted_combinations: "
         "multiset of yielded combinations == all non-empty index-ordered combinations, each once, keys "
         "non-decreasing, reported key == key(comb) when yield_key; run once with distinct elements and once with the raw (mutually equal) scores as elements. Oracle for "
         "min_combinations_in_interval_iter_sorted: for every interval [a,b) with 0<=a,b<=total+2 the result equals "
@@ -35,6 +35,11 @@ KEYS = {
     "const": lambda c: 0,
     "lex": lambda c: tuple(sorted(c, reverse=True)) ,
     "sq": lambda c: sum(x * x for x in c),
+    # keys that depend on the POSITION of the elements (still never decrease on append): the combination of all
+    # elements is not the greatest one
+    "tuple": lambda c: tuple(c),
+    "first": lambda c: c[0],
+    "first2": lambda c: sum(c[:2]),
 }
 # 'lex': appending an element to c can only keep or raise the descending-sorted tuple in lexicographic order? no:
 # (3,) -> (3,1) is greater (longer with equal prefix); (1,) -> (3,1) greater. Monotone: yes.
